@@ -95,7 +95,6 @@ def obs_problems(o, strict_float=False):
     if o.N != N:
         out.append(("N_sum", "N=%r but chain lengths sum to %d" % (o.N, N)))
     extra = (set(o.deltas) | set(o.idl) | set(o.shape)) - set(names)
-    extra = {e for e in extra if not (e in cov)}
     if extra:
         out.append(("chain_maps", "entries for unknown chains %r" % sorted(extra)))
     if set(cov) - set(names):
